@@ -184,6 +184,12 @@ func (c *Core) do(ctx context.Context, id Ident, a M) (any, error) {
 		}
 		srvHandles.Store(fmt.Sprintf("%s/raw/%d", c.Instance, Int(a, "id")), ln)
 		return M{"addr": ln.Addr().String()}, nil
+	case "grpc-accept-impostor":
+		b := c.GRPC()
+		if b == nil {
+			return nil, errors.New("no grpc broker")
+		}
+		return M{}, GRPCAcceptImpostor(b, uint32(Int(a, "id")))
 	case "grpc-accept-twice":
 		// the same id announced twice in a row (both listeners closed again at once); nobody dials it
 		b := c.GRPC()
